@@ -323,6 +323,7 @@ func analyzeAnyAdapters(p *load.Program, r *Roles, res *UnitResult, vi, ei int) 
 		label string
 		fn    *ssa.Function
 	}
+	inv := resultInvariant(p, r, vi, ei)
 	for _, kind := range []string{"Prep", "Exec", "Post"} {
 		name := "With" + kind + "FuncAny"
 		var forms []form
@@ -377,10 +378,22 @@ func analyzeAnyAdapters(p *load.Program, r *Roles, res *UnitResult, vi, ei int) 
 					case eng.TriFalse:
 						return eng.Nil(), true
 					}
+					if inv {
+						// no Result holds both an error and a value: the value field IS Value()
+						return eng.Field(P, vi), true
+					}
 					return nil, false
 				}
 				okArgs, why := true, ""
 				expect := func(i int, want *eng.Term, what string) {
+					if i < len(uc.args) && want.K == eng.KNil && inv {
+						// an error Result holds no value (constructor invariant): its value field is nil too
+						for pi := 1; pi < len(w.Params); pi++ {
+							if uc.args[i] == eng.Field(prm(pi), vi) && c.Eval(eng.Bin("==", eng.Field(prm(pi), ei), eng.Nil())) == eng.TriFalse {
+								return
+							}
+						}
+					}
 					if i >= len(uc.args) || uc.args[i] != want {
 						got := "<missing>"
 						if i < len(uc.args) {
@@ -795,4 +808,52 @@ func installedClosures(p *load.Program, r *Roles, res *UnitResult, fn *ssa.Funct
 		collect(explore(cfn, free))
 	}
 	return out
+}
+
+// resultInvariant: no Result is ever built with both a value and an error (every
+// construction site in the package sets at most one of the two fields, and no field
+// of an existing Result is assigned), so "error set" implies "value nil".
+func resultInvariant(p *load.Program, r *Roles, vi, ei int) bool {
+	if r.Result == nil {
+		return false
+	}
+	isRes := func(t types.Type) bool {
+		pt, ok := t.Underlying().(*types.Pointer)
+		return ok && types.Identical(pt.Elem(), r.Result)
+	}
+	for _, fn := range p.AllFunctions() {
+		set := map[ssa.Value][2]bool{}
+		for _, b := range fn.Blocks {
+			for _, ins := range b.Instrs {
+				st, ok := ins.(*ssa.Store)
+				if !ok {
+					continue
+				}
+				fa, ok := st.Addr.(*ssa.FieldAddr)
+				if !ok || !isRes(fa.X.Type()) {
+					continue
+				}
+				if _, local := fa.X.(*ssa.Alloc); !local {
+					return false // a field of an existing Result is assigned
+				}
+				if c, isC := st.Val.(*ssa.Const); isC && c.IsNil() {
+					continue
+				}
+				cur := set[fa.X]
+				if fa.Field == vi {
+					cur[0] = true
+				}
+				if fa.Field == ei {
+					cur[1] = true
+				}
+				set[fa.X] = cur
+			}
+		}
+		for _, v := range set {
+			if v[0] && v[1] {
+				return false
+			}
+		}
+	}
+	return true
 }
